@@ -11,7 +11,23 @@ import (
 func H_C06_prune() {
 	n := sxParam("n", 4)
 	lenMode := sxParam("lenmode", lenAll)
-	t := genTree(n, 2, false)
+	var t *tree.Tree
+	if sxParam("singles", 0) > 0 {
+		// input trees that already hold a single-child inner node: pruning is
+		// not required to clean those up, but must not add new ones
+		sh := genShape(n, false)
+		es := sh.edges()
+		ch := sxChoose("single", len(es))
+		u, v := es[ch][0], es[ch][1]
+		m := sh.addNode(-1)
+		sh.replaceNeighbor(u, v, m)
+		sh.replaceNeighbor(v, u, m)
+		sh.adj[m] = append(sh.adj[m], u, v)
+		t = buildTree(sh, rootShape(sh, sxChoose("rooted", 2) == 1))
+	} else {
+		t = genTree(n, 2, false)
+	}
+	singlesBefore := countSingles(t)
 	decorate(t, lenMode, supAny)
 	indexed := sxChoose("indexed", 2) == 1
 	if indexed {
@@ -48,7 +64,7 @@ func H_C06_prune() {
 	sxAssert(enumerationsAgree(t) == "", "enumerations agree after RemoveTips")
 	sxAssert(tipSet(t) == remaining, "tip set is exactly the requested one")
 	sxAssert(len(t.Tips()) == popcount(remaining), "no duplicated tip")
-	sxAssert(!hasSingleNode(t), "no single-child inner node left")
+	sxAssert(countSingles(t) <= singlesBefore, "no single-child inner node left")
 	sxAssert(t.Root().Nneigh() >= 2, "root has at least two children")
 
 	after := splitsOf(t, lenNone)
@@ -184,3 +200,13 @@ func indexAgrees(t *tree.Tree) string {
 
 // lenMetric0: branch length with "absent" counted as 0.
 func lenMetric0(e *tree.Edge) float64 { return math.Max(0, e.Length()) }
+
+func countSingles(t *tree.Tree) int {
+	c := 0
+	for _, n := range t.Nodes() {
+		if n != t.Root() && n.Nneigh() == 2 {
+			c++
+		}
+	}
+	return c
+}
